@@ -22,8 +22,191 @@ def _tol(L):
 
 
 # ----------------------------------------------------------------------------- correspondence
+RTOL = 1e-9
+
+
+def _close(a, b, scale=None):
+    a = np.asarray(a)
+    b = np.asarray(b)
+    if a.shape != b.shape:
+        return False, f'shape {a.shape} vs {b.shape}'
+    if a.size == 0:
+        return True, ''
+    sc = max(1.0, float(np.max(np.abs(b)))) if scale is None else scale
+    err = float(np.max(np.abs(a - b)))
+    return (np.all(np.isfinite(a)) and err <= RTOL * sc), f'max abs diff {err:.3e} (scale {sc:.3g})'
+
+
+def _flat_kn(x, F, K, N):
+    """(F, K, N) or broadcastable -> [K][F*N] with flat observation index f*N + n"""
+    x = np.broadcast_to(np.asarray(x, dtype=np.float64), (F, K, N))
+    return np.ascontiguousarray(np.transpose(x, (1, 0, 2)).reshape(K, F * N))
+
+
+def _header(F, K, N, D, rule, wca, saliency):
+    """common part of a driver line (see lean/Driver/OpsEm.lean); N is per slice here, F*N flat observations"""
+    NT = F * N
+    f_idx = np.repeat(np.arange(F), N)
+    n_idx = np.tile(np.arange(N), F)
+    uniform = 0
+    if wca == -2:
+        uniform, grp, G = 1, np.zeros(NT, dtype=int), 1
+    elif wca == (-1,):
+        grp, G = f_idx, F
+    elif wca == (-3,):
+        grp, G = n_idx, N
+    elif wca == (-3, -1):
+        grp, G = np.zeros(NT, dtype=int), 1
+    else:
+        raise ValueError(wca)
+    s = np.ones(NT) if saliency is None else np.asarray(saliency, dtype=np.float64).reshape(NT)
+    return f'{F} {K} {NT} {D} {rule} {uniform} {G} {eu_ints(grp)} {eu_ints(f_idx)} {fbits(s)}'
+
+
+def eu_ints(a):
+    return ' '.join(str(int(v)) for v in np.asarray(a).ravel())
+
+
+def _groups(line):
+    return [parse_floats(g) for g in line.split('|')]
+
+
+def _corr_case(rng, family):
+    """one step-wise EM correspondence case: the code's model after iteration i and after i+1"""
+    fam = eu.FAMILIES[family]
+    K = int(rng.integers(2, 5))
+    D = int(rng.integers(2, 6))
+    wca = [(-1,), -2, (-3,), (-3, -1)][int(rng.integers(4))]
+    F = 1 if family in ('cwmm', 'cacgmm') else int(rng.integers(1, 4))
+    if family in ('cwmm', 'cacgmm') and wca in ((-3,), (-3, -1)):
+        wca = (-1,)
+    N = 4 * K * D + int(rng.integers(0, 10))
+    y = eu.general_position(rng, (F,), N, D, K, fam.complex_obs)
+    init, _ = eu.positive_start(rng, (F,), K, N)
+    skind = str(rng.choice(['none', 'random', 'integer']))
+    sal = eu.make_saliency(rng, (F,), N, skind)
+    opts = {'weight_constant_axis': list(wca) if isinstance(wca, tuple) else wca, 'saliency': sal}
+    if family == 'cacgmm':
+        opts['covariance_norm'] = ['eigenvalue', 'trace', False][int(rng.integers(3))]
+        opts['affiliation_eps'] = 0.0
+    i = int(rng.integers(1, 7))
+    return dict(family=family, F=F, K=K, D=D, N=N, wca=wca, y=y, init=init, opts=opts, i=i, saliency=skind)
+
+
+def _line(c, m):
+    """driver line for the code's model `m` (iterate i) of case `c`; returns (line, expectations needed later)"""
+    family, F, K, D, N = c['family'], c['F'], c['K'], c['D'], c['N']
+    sal = c['opts']['saliency']
+    y = c['y']
+    w = _flat_kn(m.weight, F, K, N)
+    if family.startswith('gmm-'):
+        hd = _header(F, K, N, D, 1, c['wca'], sal)
+        g = m.gaussian
+        return f'gmm-{"sph" if family == "gmm-spherical" else "diag"} {hd} {fbits(y)} {fbits(w)} {fbits(g.mean)} ' \
+               f'{fbits(g.covariance)}'
+    z = eu.unit(y)
+    if family == 'cwmm':
+        hd = _header(1, K, N, D, 1, c['wca'], sal)
+        cw = m.complex_watson
+        return f'watson {hd} {cbits(z)} {fbits(w)} {cbits(cw.mode)} {fbits(cw.concentration)} {fbits(cw.log_norm())}'
+    hd = _header(1, K, N, D, 0 if sal is None else 1, c['wca'], sal)
+    nrm = {'eigenvalue': 0, 'trace': 1, False: 2}[c['opts']['covariance_norm']]
+    return f'cacg {hd} {nrm} {fbits(np.array(1e-10))} {cbits(z)} {fbits(w)} {cbits(m.cacg.covariance_eigenvectors)} ' \
+           f'{fbits(m.cacg.covariance_eigenvalues)}'
+
+
+def _compare(ctx, c, m, m_next, out):
+    family, F, K, D, N = c['family'], c['F'], c['K'], c['D'], c['N']
+    fam = eu.FAMILIES[family]
+    data = {'y': c['y']}
+    sal = c['opts']['saliency']
+    g = _groups(out)
+    tag = f'{family} K={K} D={D} N={N} F={F} wca={c["wca"]} saliency={c["saliency"]} i={c["i"]}'
+
+    def rep(op, ok, detail):
+        ctx.corr(f'{op}[{family}]', ok, f'{tag}: {detail}', {k: v for k, v in c.items() if k in ('y', 'init', 'opts', 'i')})
+    # log-likelihood of iterate i: model logLik (plain formula), logLikMethod (logsumexp form) vs independent value
+    L = eu.mixture_ll(fam.log_pdf(m, data), fam.weight(m), sal)
+    ok, d = _close(g[0][0], L, scale=1 + abs(L))
+    rep('logLik', ok, f'model {g[0][0]!r} vs code {L!r}: {d}')
+    if sal is None:
+        Lm = eu.mixture_ll(fam.log_pdf(m, data), fam.weight(m), None)
+        if family == 'cacgmm':
+            Lm = float(m.log_likelihood(c['y']))
+        ok, d = _close(g[0][1], Lm, scale=1 + abs(Lm))
+        rep('logLikMethod', ok, f'model {g[0][1]!r} vs code {Lm!r}: {d}')
+    # E-step
+    post = _flat_kn(fam.predict(m, data), F, K, N)
+    ok, d = _close(g[1].reshape(K, F * N), post, scale=1.0)
+    rep('eStep', ok, d)
+    # M-step: weights of iterate i+1
+    ok, d = _close(g[2].reshape(K, F * N), _flat_kn(m_next.weight, F, K, N), scale=1.0)
+    rep('mWeight', ok, d)
+    if family.startswith('gmm-'):
+        gn = m_next.gaussian
+        ok, d = _close(g[3].reshape(F, K, D), np.reshape(gn.mean, (F, K, D)))
+        rep('mstep-mean', ok, d)
+        ok, d = _close(g[4].reshape(np.shape(gn.covariance)), gn.covariance)
+        rep('mstep-covariance', ok, d)
+    elif family == 'cwmm':
+        cov = g[3].view(np.complex128).reshape(K, D, D)
+        cw = m_next.complex_watson
+        trainer = eu.ComplexWatsonTrainer(D)
+        for k in range(K):
+            ev = np.linalg.eigvalsh((cov[k] + cov[k].conj().T) / 2)
+            res = np.linalg.norm(cov[k] @ cw.mode[0, k] - ev[-1] * cw.mode[0, k])
+            rep('mstep-pca-contract', res <= 1e-9, f'class {k}: |S m - lambda_max m| = {res:.3e}')
+            kap = float(trainer.hypergeometric_ratio_inverse(ev[-1]))
+            rep('mstep-spline-contract', abs(kap - cw.concentration[0, k]) <= 1e-7 * max(1.0, kap),
+                f'class {k}: spline(lambda_max of the model scatter) = {kap!r} vs code {cw.concentration[0, k]!r}')
+            r = float(trainer.hypergeometric_ratio(cw.concentration[0, k]))
+            ctx.count('watson-spline-error<=1e-6' if abs(r - ev[-1]) <= 1e-6 else 'watson-spline-error>1e-6')
+    else:
+        aff, q = m.predict(c['y'], return_quadratic_form=True)
+        ok, d = _close(g[3].reshape(K, N), np.reshape(q, (K, N)), scale=float(np.max(q)))
+        rep('eStep-quadratic-form', ok, d)
+        cn = m_next.cacg
+        ok, d = _close(np.sort(g[4].reshape(K, D), axis=-1), np.sort(np.reshape(cn.covariance_eigenvalues, (K, D)), axis=-1))
+        rep('mstep-eigenvalues', ok, d)
+        ok, d = _close(g[5].view(np.complex128).reshape(K, D, D), np.reshape(cn.covariance, (K, D, D)))
+        rep('mstep-covariance', ok, d)
+
+
 def corr(ctx):
-    pass
+    rng = ctx.rng
+    fams = ['gmm-spherical', 'gmm-diagonal', 'cwmm', 'cacgmm']
+    n = ctx.n(80, 1500)
+    cases, lines, models = [], [], []
+    for j in range(n):
+        c = _corr_case(rng, fams[j % len(fams)])
+        fam = eu.FAMILIES[c['family']]
+        data = {'y': c['y'] if c['F'] > 1 or c['family'].startswith('gmm-') else c['y']}
+        try:
+            m = fam.fit(data, c['init'], c['i'], c['opts'])
+            m_next = fam.fit(data, c['init'], c['i'] + 1, c['opts'])
+        except ValueError as ex:
+            if eu.is_singular_covariance_rejection(ex):
+                ctx.count('corr-skip-singular-covariance')
+                continue
+            raise
+        if fam.mstep_guard(m_next, c['opts']) or fam.mstep_guard(m, c['opts']):
+            ctx.count('corr-skip-guard-active')       # the model has no clipping / the spline's fill values
+            continue
+        cases.append(c)
+        models.append((m, m_next))
+        lines.append(_line(c, m))
+        ctx.count(f'corr-family:{c["family"]}')
+        ctx.count(f'corr-wca:{c["wca"]}')
+    outs = run_driver(lines, exe='driver_em')
+    for c, (m, m_next), out in zip(cases, models, outs):
+        if out.strip() == 'bad-op':
+            ctx.corr(f'driver[{c["family"]}]', False, 'driver answered bad-op')
+            continue
+        _compare(ctx, c, m, m_next, out)
+    if cases:
+        c = cases[0]
+        ctx.sample({'op': 'em-step', 'family': c['family'], 'K': c['K'], 'D': c['D'], 'N': c['N'], 'F': c['F'],
+                    'wca': str(c['wca']), 'iterate': c['i']})
 
 
 # ----------------------------------------------------------------------------- oracles on the real code
